@@ -47,13 +47,14 @@ type World struct {
 	Dist    params.Distribution
 	Ux      map[cipher.SHA256]coin.UxOut // every output ever created on the chain (spent or not)
 	UxID    map[cipher.SHA256]int        // small integer id per output hash (harness id table)
+	Volume  uint64                       // genesis coin volume = genesis output hours (default GenesisVolume)
 	nonce   uint64
 	tmpRoot string
 }
 
 func NewWorld(r *kit.Rng, tag string) (*World, error) {
 	logging.Disable()
-	w := &World{R: r, KeyOf: map[cipher.Address]cipher.SecKey{}, Ux: map[cipher.SHA256]coin.UxOut{}, UxID: map[cipher.SHA256]int{}}
+	w := &World{R: r, Volume: GenesisVolume, KeyOf: map[cipher.Address]cipher.SecKey{}, Ux: map[cipher.SHA256]coin.UxOut{}, UxID: map[cipher.SHA256]int{}}
 	seed := r.Bytes(32)
 	w.Pub, w.Sec = cipher.MustGenerateDeterministicKeyPair(append([]byte("publisher"), seed...))
 	w.Keys = cipher.MustGenerateDeterministicKeyPairs(append([]byte("wallet"), seed...), NKeys)
@@ -128,7 +129,7 @@ func (w *World) NewNode(name string, publisher bool, genesisSig cipher.Sig) (*No
 		cfg.BlockchainSeckey = w.Sec
 	}
 	cfg.GenesisAddress = w.Addrs[0]
-	cfg.GenesisCoinVolume = GenesisVolume
+	cfg.GenesisCoinVolume = w.Volume
 	cfg.GenesisTimestamp = GenesisTime
 	cfg.GenesisSignature = genesisSig
 	cfg.Distribution = w.Dist
@@ -521,3 +522,48 @@ func (w *World) PredictOutputs(head coin.BlockHeader, t coin.Transaction) []ciph
 // PathOf returns the database path NewNode(name, …) uses (C08 places crash
 // images there before opening a node on them).
 func (w *World) PathOf(name string) string { return filepath.Join(w.tmpRoot, name+".db") }
+
+// ---- hand-made blocks (only the block-level hard rules apply to them)
+
+// UxHash computes the unspent-set hash a block header must carry: the XOR of
+// the snapshot hashes of all unspent outputs (as blockdb.Unspents maintains it).
+func UxHash(n *Node) (cipher.SHA256, error) {
+	uxs, err := n.V.GetAllUnspentOutputs()
+	if err != nil {
+		return cipher.SHA256{}, err
+	}
+	var h cipher.SHA256
+	for i := range uxs {
+		h = h.Xor(uxs[i].SnapshotHash())
+	}
+	return h, nil
+}
+
+// MakeBlock builds and signs a block on top of n's head from the given
+// transactions without going through the publisher's createBlock filter.
+func (w *World) MakeBlock(n *Node, txns coin.Transactions, when uint64) (coin.SignedBlock, error) {
+	head, err := n.V.GetHeadBlock()
+	if err != nil {
+		return coin.SignedBlock{}, err
+	}
+	uxh, err := UxHash(n)
+	if err != nil {
+		return coin.SignedBlock{}, err
+	}
+	calc := func(t *coin.Transaction) (uint64, error) {
+		uxIn, err := n.V.GetUnspentOutputs(t.In)
+		if err != nil {
+			return 0, err
+		}
+		f, err := fee.TransactionFee(t, head.Time(), uxIn)
+		if err != nil {
+			return 0, nil // the header fee field is not verified; block rules tolerate hour overflows
+		}
+		return f, nil
+	}
+	b, err := coin.NewBlock(head.Block, when, uxh, txns, calc)
+	if err != nil {
+		return coin.SignedBlock{}, err
+	}
+	return coin.SignedBlock{Block: *b, Sig: w.detSign(b.HashHeader(), w.Sec)}, nil
+}
